@@ -22,6 +22,7 @@ Inductive err :=
 | EProject           (* ProjectBindings: unknown binding *)
 | ELimit             (* limitCollection rejected the LIMIT token *)
 | EBuild             (* NewEvaluator rejected the token list *)
+| EFuel              (* model artefact: recursion fuel exhausted (excluded by build_fuel_enough) *)
 | EEval.             (* Evaluate returned an error *)
 
 Inductive site :=
